@@ -38,3 +38,9 @@ claim("C14", "reference-model monitor: analytic grid model vs real GridSpec on a
       "interior-disjoint, neighbours share edges, 40 points per grid incl. edges/corners, bbox queries (random and exactly tile-aligned, edge contacts must be excluded), polygon queries in the "
       "grid CRS and in EPSG:4326 (must/may sets by shapely areas), rebuild from a sample tile, web_tiles z<=22 against the slippy-map formula and the world-bounds query.",
       _TB + " Cross-CRS polygon queries are densified so vertex-wise projection follows the true image.", "DESIGN.md 5/C14")
+
+claim("C01", "exception/result monitor over the enumerated product operation x CRS-tag pair x geometry kind, ground truth from generator labels (cross-checked with pyproj), shapely on raw shapes as reference",
+      "Quick: every combining operation x all 169 ordered CRS-tag pairs with sampled geometry kinds, n-ary streams with the odd operand at every position, BoundingBox and "
+      "grid-compatible GeoBox operands; thorough: the full product over 11x11 geometry kinds (exhaustive: true). Mismatch must raise ValueError/CRSMismatchError before any "
+      "result exists; equal CRSs (any spelling) must give the shapely result tagged with the first operand's CRS.",
+      _TB + " Shapely/GEOS is trusted for the reference result; a generator (split) is consumed before judging.", "DESIGN.md 5/C01")
